@@ -36,6 +36,8 @@ type C05Scenario struct {
 	ViaAny       bool     `json:"via_any,omitempty"` // publish through an interface-typed value (reflection dispatch path)
 	PHViaSetter  bool     `json:"ph_via_setter,omitempty"` // install the panic handler with SetPanicHandler after the subscriptions were made
 	PHRetries    bool     `json:"ph_retries,omitempty"`    // the panic handler re-enters the bus: it publishes a retry event (id+1000) of the same type
+	// PHNil (only without PanicHandler): "no panic handler" is said explicitly - WithPanicHandler(nil) or SetPanicHandler(nil)
+	PHNil int `json:"ph_nil,omitempty"` // 0 not mentioned, 1 option with nil, 2 setter with nil
 }
 
 type customPanic struct{ N int }
@@ -107,6 +109,9 @@ func genC05(rt *rapid.T) core.Scenario {
 	sc.ViaAny = rapid.IntRange(0, 3).Draw(rt, "viaAny") == 3
 	sc.PHViaSetter = sc.PanicHandler && rapid.IntRange(0, 2).Draw(rt, "phViaSetter") == 2
 	sc.PHRetries = sc.PanicHandler && rapid.IntRange(0, 3).Draw(rt, "phRetries") == 3
+	if !sc.PanicHandler {
+		sc.PHNil = rapid.IntRange(0, 2).Draw(rt, "phNil")
+	}
 	sc.ShareOpts = rapid.IntRange(0, 2).Draw(rt, "shareOpts") == 2
 	sc.Tape = core.DrawTape(rt, 300)
 	return sc
@@ -154,6 +159,9 @@ func (sc *C05Scenario) Execute(t *testing.T) *core.Outcome {
 		if sc.PanicHandler && !sc.PHViaSetter {
 			opts = append(opts, eventbus.WithPanicHandler(ph))
 		}
+		if sc.PHNil == 1 {
+			opts = append(opts, eventbus.WithPanicHandler(nil))
+		}
 		if sc.Obs {
 			opts = append(opts, eventbus.WithObservability(nopObs{}))
 		}
@@ -188,6 +196,9 @@ func (sc *C05Scenario) Execute(t *testing.T) *core.Outcome {
 		}
 		if sc.PanicHandler && sc.PHViaSetter {
 			w.Bus.SetPanicHandler(ph) // a configuration setter: completed before any concurrent use begins
+		}
+		if sc.PHNil == 2 {
+			w.Bus.SetPanicHandler(nil)
 		}
 		for _, id := range sc.Pubs {
 			w.Rec.Add("pub", id, 0, "")
